@@ -87,6 +87,34 @@ func c15NextGeneration(p *load.Program, r *oblig.Report) {
 		}
 	}
 	r.Check(okWait, rule, "nextGeneration → blocks until the group is closed or the generation's done channel is closed", pos, "select { case <-cg.done: …; case <-gen.done: … }", "not recognised")
+	// when one of those selects fires, ending the generation is the first thing that happens: nothing that talks to
+	// the coordinator (leaveGroup, …) runs between the select and gen.close(), so the contexts of the generation's
+	// functions are cancelled without waiting for a round trip
+	slow := ""
+	for _, sel := range selects {
+		q := an.PathQuery{Fn: fn, Stop: isGenClose, Target: func(i ssa.Instruction) bool {
+			c, ok := i.(*ssa.Call)
+			if !ok {
+				return false
+			}
+			if c.Call.IsInvoke() {
+				return true
+			}
+			sc := c.Call.StaticCallee()
+			if sc == nil || !load.InModule(sc) {
+				return false
+			}
+			switch an.RefFuncName(sc) {
+			case "withLogger", "withErrorLogger", "log", "logError":
+				return false
+			}
+			return true
+		}}
+		if hit := q.ReachableFrom(an.PointOf(sel)); hit != nil {
+			slow = an.CalleeName(hit.(*ssa.Call).Common()) + " at " + p.Pos(hit.Pos()) + " runs before gen.close()"
+		}
+	}
+	r.Check(slow == "", rule, "nextGeneration → the generation is closed first when the group is closed or the generation is done", pos, "case <-cg.done: gen.close(); … (no coordinator request before it)", slow)
 	// the generation sent is the one that is closed: same alloc
 	var genAlloc ssa.Value
 	if pubIdx >= 0 {
@@ -496,12 +524,15 @@ func c15RunLoop(p *load.Program, r *oblig.Report) {
 		sel, ng := false, false
 		for d := blk; d != nil; d = d.Idom() {
 			for _, i2 := range d.Instrs {
-				if s, isS := i2.(*ssa.Select); isS {
+				if selectAt(i2, func(s *ssa.Select) bool {
 					for _, st := range s.States {
 						if strings.HasSuffix(argDesc(st.Chan), ".done") {
-							sel = true
+							return true
 						}
 					}
+					return false
+				}) {
+					sel = true
 				}
 				if c2, isC2 := i2.(*ssa.Call); isC2 && calleeNamed(&c2.Call, "ConsumerGroup", "nextGeneration") {
 					ng = true
